@@ -1,6 +1,7 @@
 import Genshi.Wire
 import Genshi.Model.Conc
 import Genshi.Model.ConcNested
+import Genshi.Model.LockOrder
 import Driver.C15
 namespace Driver.C16
 open Genshi Genshi.Sexp Genshi.Lru Genshi.Loader Genshi.Conc
@@ -22,6 +23,29 @@ partial def creq? (pathEmpty : Bool) : Sexp → Option CReq
       let cs ← children.mapM (creq? pathEmpty)
       pure (.mk r key cs)
   | _ => none
+
+def lockAct? : Sexp → Option Genshi.LockOrder.Act
+  | .list [.atom "A", l] => do let l ← l.toNat?; pure (.acq l)
+  | .list [.atom "R", l] => do let l ← l.toNat?; pure (.rel l)
+  | _ => none
+
+/-- replay recorded lock events; `some i`: event `i` is not what the model does there -/
+def lockReplay (i : Nat) (g : Genshi.LockOrder.G) :
+    List (Nat × String × Nat) → Option Nat × Genshi.LockOrder.G
+  | [] => (none, g)
+  | (t, k, l) :: rest =>
+    let head := (g.threads t).prog.head?
+    match k with
+    | "blk" =>
+      if head == some (.acq l) && (Genshi.LockOrder.step g t).isNone && t < g.n then lockReplay (i + 1) g rest
+      else (some i, g)
+    | _ =>
+      let want : Genshi.LockOrder.Act := if k == "acq" then .acq l else .rel l
+      if head == some want && (k == "acq" || k == "rel") then
+        match Genshi.LockOrder.step g t with
+        | some g' => lockReplay (i + 1) g' rest
+        | none => (some i, g)
+      else (some i, g)
 
 inductive Label where
   | call | acq | blk | get (hit : Option Nat) | put (obj : Nat) | rel | ret (res : Option Nat) (err : String)
@@ -145,6 +169,29 @@ def handle : List Sexp → Option Sexp
         .list (out.1.cache.items.map fun (k, t) => .list [Driver.C15.keyS k, ofNat t.obj]),
         .list (out.2.map fun (t, _, r) => .list [ofNat t, resS r]),
         ofNat out.1.nextObj, ofNat out.1.lock, ofNat out.1.cbLog.length])
+  -- `C16 locks ( programs ) ( events ) ( rank… )`: the lock actions recorded per thread on the real
+  -- code (every lock the genshi modules create), replayed in their global order on the model with
+  -- several re-entrant locks: every `acq`/`rel` must be an enabled step of its thread, every `blk`
+  -- a moment at which the model blocks that thread too; then the final state, whether it is a
+  -- deadlock, and whether all programs respect the numbering of the locks (`ok (byRank rank)`)
+  | [.atom "locks", .list progs, .list events, .list rank] => do
+      let progs ← progs.mapM fun
+        | .list acts => acts.mapM lockAct?
+        | _ => none
+      let events ← events.mapM fun
+        | .list [t, .atom k, l] => do let t ← t.toNat?; let l ← l.toNat?; pure (t, k, l)
+        | _ => none
+      let rank ← rank.mapM (·.toNat?)
+      let rk : Genshi.LockOrder.Lock → Nat := fun l => rank.getD l 0
+      let g0 := Genshi.LockOrder.G.init progs
+      let verdict := lockReplay 0 g0 events
+      let g := verdict.2
+      pure (.list [match verdict.1 with | none => .atom "ok" | some i => .list [.atom "reject", ofNat i],
+        .list ((List.range g.n).map fun t =>
+          .list [.list ((g.threads t).held.map ofNat), ofNat (g.threads t).prog.length]),
+        ofBool (Genshi.LockOrder.stuck g),
+        ofBool (progs.all fun p => Genshi.LockOrder.ok (Genshi.LockOrder.byRank rk) [] p),
+        .list ((progs.flatMap (Genshi.LockOrder.edges [])).eraseDups.map fun (a, b) => .list [ofNat a, ofNat b])])
   | _ => none
 
 end Driver.C16
